@@ -67,6 +67,10 @@ let run (st : stream) (b : Buffer.t) : unit =
           (codes (check_C05 nw o)) (codes (check_C07 nw o));
         Printf.bprintf b "EVAL unserved=%s viol=%s costs=%s lb=%s\n" (zs (eval_unserved nw o))
           (zs (eval_violation nw o)) (zs (eval_costs nw o)) (zs (lower_bound nw))
+      | "TRAJ" ->
+        let n = next_int st in
+        let vs = repeat n (fun () -> let k = next_int st in repeat k (fun () -> next_z st)) in
+        Printf.bprintf b "TRAJOK %b\n" (strictly_descending vs)
       | "SCHED" ->
         let (label, o) = read_sched st in
         snaps := (label, o) :: !snaps;
